@@ -16,7 +16,7 @@ _PATHS = {
     "this.connRef.router().routingOption(nudgeOrthogonalSegmentsConnectedToShapes)": ("self.nudgeFinal", "Bool"),
 }
 _FNS1 = ["lowPoint", "highPoint", "nudgeDistance", "zigzag", "immovable", "lowC", "highC", "order", "hasCheckpointAtPosition",
-         "overlapsWith", "canAlignWith", "createSolverVariable"]
+         "overlapsWith", "canAlignWith", "shouldAlignWith", "createSolverVariable"]
 
 NUDGEK = dict(
     ns="AdaptaVerif.Gen.NudgeK",
